@@ -1540,6 +1540,10 @@ class Normaliser:
                     if isinstance(x, ast.Call) and isinstance(x.func, ast.Name) and x.func.id in ('tuple', 'list') and len(x.args) == 1 \
                             and not x.keywords and isinstance(x.args[0], ast.GeneratorExp):
                         new = ast.copy_location(ast.ListComp(elt=x.args[0].elt, generators=x.args[0].generators), x)
+                        if x.func.id == 'tuple':
+                            # still a tuple (numpy treats a tuple of axes and a list of axes differently): only the generator is materialised
+                            x.args[0] = new
+                            continue
                         if isinstance(v, list):
                             v[i] = new
                         else:
